@@ -71,7 +71,10 @@ def plans(tier):
          ("typed", "1.0", "Typed", ab, ["1.0", "1.1"]),
          ("allq", "1.0", "AllQ", ["a", "b", "c"], ["1.0", "1.1"]),
          ("leafvar10", "1.0", "LeafVar", var, ["1.0"]),
-         ("leafvar11", "1.1", "LeafVar", var, ["1.1"])]
+         ("leafvar11", "1.1", "LeafVar", var, ["1.1"]),
+         ("leafvarf10", "1.0", "LeafVarF", var + ["f"], ["1.0"]),
+         ("leafvarf11", "1.1", "LeafVarF", var + ["f"], ["1.1"]),
+         ("mid3", "1.0", "Mid3", ab, ["1.0", "1.1"])]
     if tier == "thorough":
         p.append(("depth2", "1.0", "Depth2", ab, ["1.0", "1.1"]))
     return p
